@@ -153,6 +153,9 @@ def ev_call(ex, n, st, spec, b):
                 args += list(v.items)
             elif isinstance(v, ListV) and all(z3.is_true(g) for g, _ in v.items):
                 args += [i for _, i in v.items]
+            elif isinstance(v, ListV):
+                # guarded list: only abstract handlers can take it (kept as one opaque argument)
+                args.append(ObjV("__starargs__", {"items": v}))
             else:
                 raise Unsupported("star-argument of symbolic shape")
         else:
@@ -243,7 +246,7 @@ def call_value(ex, fv, args, kwargs, st, node, spec, rebind_self=None):
             if isinstance(fnode, ast.Lambda):
                 bound = _bind_args(fnode.args, args, kwargs, lambda d: ex.ev(d, st, spec))
                 return ex.ev(fnode.body, st, spec, {**(binds or {}), **bound})
-            return inline_function(ex, fnode, None, args, kwargs, st, node, spec, name=fv.name)[0]
+            return inline_function(ex, fnode, None, args, kwargs, st, node, spec, name=fv.name, closure=st.env)[0]
         return call_named(ex, fv.name, args, kwargs, st, node, spec)
     if isinstance(fv, Opt):
         return call_value(ex, ex.need_not_none(fv, st, node), args, kwargs, st, node, spec)
@@ -420,7 +423,7 @@ def dispatch_split(ex, base, tag, alts, attr, args, kwargs, st, node, spec):
     return res, (nb if any_mod else None)
 
 
-def inline_function(ex, fnode, selfv, args, kwargs, st, node, spec, name="?", cls=None):
+def inline_function(ex, fnode, selfv, args, kwargs, st, node, spec, name="?", cls=None, closure=None):
     """Execute the callee's real body in place.  Returns (result, new_self)."""
     cx = ex.cx
     if cx.depth > 12:
@@ -433,7 +436,11 @@ def inline_function(ex, fnode, selfv, args, kwargs, st, node, spec, name="?", cl
         gen = True
     else:
         gen = False
+    if closure is not None:
+        bound = {**{k_: v_ for k_, v_ in closure.items() if not k_.startswith("__")}, **bound}
     sub = St(bound, st.pc, st.dec)
+    for g_ in [k_ for k_ in st.env if k_.startswith("$")]:
+        sub.env[g_] = st.env[g_]
     if is_method:
         sub.env[fnode.args.args[0].arg] = selfv
     cx.inlined.add(name)
@@ -485,6 +492,12 @@ def inline_function(ex, fnode, selfv, args, kwargs, st, node, spec, name="?", cl
         res = merge_val(g, v, res, name + ".result")
         if is_method:
             new_self = merge_val(g, s_.env.get(sname), new_self, name + ".self")
+    # ghost state ($...) changed inside the callee flows back to the caller
+    for gk in [k_ for k_ in finals[-1][0].env if k_.startswith("$")]:
+        gv = finals[-1][0].env[gk]
+        for g, (s_, v) in zip(reversed(guards[:-1]), reversed(finals[:-1])):
+            gv = merge_val(g, s_.env.get(gk, gv), gv, gk)
+        st.env[gk] = gv
     if len(finals) == 1:
         st.pc[:] = finals[0][0].pc
         st.dec[:] = finals[0][0].dec
@@ -594,6 +607,15 @@ def ev_comprehension(ex, n, st, spec, b):
     kind, seq = ex.classify_iter(g.iter, st) if not b else _classify_with_binds(ex, g.iter, st, spec, b)
     if kind == "seq" and seq[0] == "plain" and not g.ifs and getattr(n, "_sum_context", False):
         return ("__gsum__", n, g, seq[1], dict(b))
+    if kind == "seq" and seq[0] == "plain":
+        # list built from a symbolic sequence: an opaque sequence of the same length (fewer with a filter);
+        # its elements are unconstrained (over-approximation)
+        n_ = seq[1].n
+        if g.ifs:
+            n2 = fresh("comp.n", I)
+            st.pc.append(z3.And(0 <= n2, n2 <= n_))
+            n_ = n2
+        return SeqV(fresh("comp.arr", AII), n_, None)
     if kind != "items":
         h = ex.cx.spec.get("__comprehension__")
         if h is not None:
